@@ -15,6 +15,7 @@ mod shade;
 mod strokefam;
 mod boundary;
 mod selfcheck;
+mod drivers;
 
 use serde_json::{json, Value};
 use std::io::{BufRead, BufReader, Write};
@@ -166,11 +167,13 @@ fn main() {
             let scs = match fam.as_str() {
                 "surface" => surface::drive(seed, n),
                 "cov" => cov::drive(seed, n),
-                f if f.starts_with("canvas") => canvas::drive(f, seed, n),
-                "flatten" | "contains" | "builder" | "arc" => pathfam::drive(fam, seed, n),
+                f if f.starts_with("canvas") => drivers::canvas(f, seed, n),
+                "flatten" => drivers::curve("flatten", seed, n),
+                "contains" | "builder" | "arc" => pathfam::drive(fam, seed, n),
                 "views" => views::drive(seed, n),
-                f if f.starts_with("shade") => shade::drive(f, seed, n),
-                f if f.starts_with("stroke") || f.starts_with("dash") || f.starts_with("curve") => strokefam::drive(f, seed, n),
+                f if f.starts_with("shade") => drivers::shade(f, seed, n),
+                f if f.starts_with("stroke") || f.starts_with("dash") => drivers::stroke(f, seed, n),
+                f if f.starts_with("curve") => drivers::curve(f, seed, n),
                 "boundary" => boundary::drive(seed, n),
                 "selfcheck" => selfcheck::drive(seed, n),
                 _ => panic!("unknown family"),
